@@ -131,9 +131,10 @@ func cmdRankTable(args []string) {
 				return fmt.Sprint(ls[i].k) < fmt.Sprint(ls[j].k)
 			})
 			for _, l := range ls {
-				rr := [][2]int64{}
+				// the category is recorded by its NAME (the enum's numbering is an implementation detail)
+				rr := [][]interface{}{}
 				for _, r := range l.r {
-					rr = append(rr, [2]int64{int64(r.comb), clip(int64(r.score))})
+					rr = append(rr, []interface{}{combination.CombinationSymbol[combination.Combination(r.comb)], clip(int64(r.score))})
 				}
 				po.write(M{"kind": "class", "carry": false, "deck": dk, "table": tb, "ranks": l.k.r, "flush": l.k.flush, "results": rr})
 			}
